@@ -3,7 +3,10 @@
 //! and no timeout blocking support
 
 use std::cell::UnsafeCell;
+#[cfg(not(may_verif))]
 use std::sync::atomic::{AtomicBool, Ordering};
+#[cfg(may_verif)]
+use crate::verif::atomic::{AtomicBool, Ordering};
 use std::sync::Arc;
 
 use super::{blocking::ThreadPark, AtomicOption};
